@@ -431,6 +431,8 @@ def label_clone(W, n, c, off):
                     reg("wire", w0, w1)
             for k0, k1 in zip(d0._children, d1._children):
                 reg("instance", k0, k1)
+    if (n._top_instance is None) != (c._top_instance is None):
+        return False          # "same top": a netlist with a top instance clones into one with a top instance (and none into none)
     if n._top_instance is not None and c._top_instance is not None:
         reg("instance", n._top_instance, c._top_instance)
     return True
@@ -553,8 +555,40 @@ def after_clone_checks(W, res, what, inp):
     heap — originals, copies and the shared bookkeeping together — satisfies the C01/C02 statement-level oracle"""
     from engines.irlib import oracle
     for (kind, orig, copy) in getattr(W, "clone_pairs", []):
+        # a faithful copy is an object of the very same class (clients test `pin.__class__ is sdn.InnerPin`,
+        # e.g. Wire.get_driver): not a base class, not another extension
+        if type(copy) is not type(orig):
+            res.spec_failure("%s.clone.class_differs" % what, inp, "%s: original %s.%s, copy %s.%s" % (kind, type(orig).__module__, type(orig).__name__, type(copy).__module__, type(copy).__name__))
+            break
         if hasattr(orig, "_data") and orig._data.get(".NS") != copy._data.get(".NS"):
             res.spec_failure("%s.clone.naming_policy_differs" % what, inp, "%s: original %r, copy %r" % (kind, orig._data.get(".NS"), copy._data.get(".NS")))
+            break
+    # the copy refuses what the original refuses: as the FIRST thing done to a fresh copy, a new child carrying the
+    # name of an existing child of the same class is offered to one copied container (the clone's name bookkeeping is
+    # built lazily; an add that arrives before any lookup must still be checked)
+    makers = {"netlist": [("_libraries", "create_library")], "library": [("_definitions", "create_definition")],
+              "definition": [("_ports", "create_port"), ("_cables", "create_cable"), ("_children", "create_child")]}
+    for (kind, orig, copy) in getattr(W, "clone_pairs", []):
+        done = False
+        for lst, maker in makers.get(kind, []):
+            named = [x for x in getattr(copy, lst) if isinstance(x._data.get(".NAME"), str)]
+            if not named or copy._data.get(".NS") is None:
+                continue
+            nm = named[0]._data[".NAME"]
+            n0 = len(getattr(copy, lst))
+            try:
+                getattr(copy, maker)(name=nm)
+                outcome = "accepted"
+            except ValueError:
+                outcome = "refused"
+            except Exception as e:  # noqa: BLE001
+                outcome = "raised " + type(e).__name__
+            if outcome != "refused" or len(getattr(copy, lst)) != n0:
+                res.spec_failure("%s.clone.copy_accepts_duplicate_name" % what, inp,
+                                 "%s copy: %s(name=%r) although a child of that name exists: %s" % (kind, maker, nm, outcome))
+            done = True
+            break
+        if done:
             break
     W.clone_pairs = []
     for clause, detail in oracle(W):
